@@ -320,6 +320,10 @@ impl Uuid {
     #[verifier::external_body]
     pub fn as_bytes(&self) -> (r: &[u8; 16]) ensures r@ == spec_uuid_bytes(*self) { unimplemented!() }
 }
+// `format!("{}", uuid)` / `uuid.to_string()`: the hyphenated text form
+pub uninterp spec fn spec_uuid_str(u: Uuid) -> Seq<char>;
+#[verifier::external_body]
+pub fn vf_uuid_string(u: &Uuid) -> (r: String) ensures r@ == spec_uuid_str(*u) { unimplemented!() }
 
 // ---- secp static instance / commitment arithmetic used when a coinbase confirms (opaque)
 pub struct SecpInstance { pub s: u8 }
